@@ -41,7 +41,7 @@ func init() {
 		ID:    "C12",
 		Level: "exploration",
 		Rule: "E1 + depth-bounded E2: (of) every subset of the 11 boundary positions {0,1,62,63,64,65,127,128,129,191,192} × n in {absent,-5,0,1,63,64,65,128,129,193,300}: word count and exact bit set of Of, ToArray(Of(l)) = l, Of(ToArray(b)) = b up to trailing zero words, and Get/Get1 inside plus SafeGet/SafeGet1 at every probe in [-70, 64·words+70); " +
-			"(ofmany) every sequence of ≤3 segments (positions ⊂ {0,1,63,64,65}, size in {0,1,63,64,65,130}; positions ≥ size included, so the shifted concatenation need not be ascending) whose shifted bits all fit into the word count the statement gives, against the set model and that word count; " +
+			"(of, far) every subset of {0,63,64,4095,4096,4097,65535,65536} × 5 sizes with probes around every position and end; (ofmany) every sequence of ≤3 segments (positions ⊂ {0,1,63,64,65}, size in {0,1,63,64,65,130}; positions ≥ size included, so the shifted concatenation need not be ascending) whose shifted bits all fit into the word count the statement gives, against the set model and that word count; " +
 			"(builder) every sequence of ≤3 operations over the 216-operation alphabet (and every sequence of 4..R operations over a 10-operation sub-alphabet) {Extend(those 192 segments), Set(pos in {0,1,63,64,65,200}, value in 0..3)} executed on a real Builder from NewBuilder(0) and NewBuilder(256): set bits, Offset, capacity for every bit, and exact equality with the reference Of for Extend-only histories with ascending positions. A case is one call / one history; non-trivial when at least one bit is set.",
 		Assumptions: []string{"positions beyond 300 and longer histories are not enumerated; non-ascending lists are outside Of's and OfMany's statement"},
 		Run:         c12Run,
@@ -165,7 +165,34 @@ func c12OfOne(pos []int32, hasN bool, n int32, onlyProbe *int32) (got, want stri
 	if onlyProbe != nil {
 		lo, hi = *onlyProbe, *onlyProbe+1
 	}
-	for i := lo; i < hi; i++ {
+	var probes_ []int32
+	if hi-lo <= 2000 {
+		for i := lo; i < hi; i++ {
+			probes_ = append(probes_, i)
+		}
+	} else {
+		// long bitmaps: every probe within 2 of a listed position, of either end and of a word
+		// boundary next to them
+		seenP := map[int32]bool{}
+		addP := func(x int32) {
+			for d := int32(-2); d <= 2; d++ {
+				if y := x + d; y >= lo && y < hi && !seenP[y] {
+					seenP[y] = true
+					probes_ = append(probes_, y)
+				}
+			}
+		}
+		for _, x := range pos {
+			addP(x)
+			addP(x &^ 63)
+			addP(x | 63)
+		}
+		addP(0)
+		addP(nb)
+		addP(-64)
+		addP(nb + 64)
+	}
+	for _, i := range probes_ {
 		inside := i >= 0 && i < nb
 		o := probe(w, i, inside)
 		var b uint64
@@ -256,6 +283,35 @@ func c12Shift(segs []c12Seg) (all []int32, total int32, asc bool) {
 		total += s.Size
 	}
 	return
+}
+
+// c12OfManyOK is the fast path of c12OfManyOne (no strings).
+func c12OfManyOK(segs []c12Seg, all []int32, total int32, subs [][]int32, sizes []int32) bool {
+	subs, sizes = subs[:0], sizes[:0]
+	for _, s := range segs {
+		subs, sizes = append(subs, s.Pos), append(sizes, s.Size)
+	}
+	w, p := ofMany(subs, sizes)
+	if p != "" {
+		return false
+	}
+	bits := total
+	if len(all) > 0 && all[len(all)-1]+1 > bits {
+		bits = all[len(all)-1] + 1
+	}
+	if len(w) != int((bits+63)/64) {
+		return false
+	}
+	var model [8]uint64
+	for _, x := range all {
+		model[x>>6] |= 1 << uint(x&63)
+	}
+	for i, x := range w {
+		if i >= len(model) || x != model[i] {
+			return false
+		}
+	}
+	return true
 }
 
 func c12OfManyOne(segs []c12Seg) (got, want string) {
@@ -457,6 +513,38 @@ func c12Run(c *mc.Ctx) {
 			c.ForceSample(map[string]interface{}{"fn": "Of/ToArray/Get*", "positions": pos, "n": "each of absent,-5,0,1,63,64,65,128,129,193,300", "probes_per_case": "[-70, 64*words+70)"})
 		}
 	})
+	// (of, far) positions thousands of bits apart
+	far := []int32{0, 63, 64, 4095, 4096, 4097, 65535, 65536}
+	farNs := []struct {
+		has bool
+		n   int32
+	}{{false, 0}, {true, 0}, {true, 4096}, {true, 4097}, {true, 70000}}
+	c.Expect(int64(1<<uint(len(far))) * int64(len(farNs)))
+	c.Par(1<<uint(len(far)), func(m int) {
+		if c.TooMany() {
+			return
+		}
+		pos := []int32{}
+		for k, b := range far {
+			if m>>uint(k)&1 == 1 {
+				pos = append(pos, b)
+			}
+		}
+		var evals, nontriv, probes int64
+		for ni, n := range farNs {
+			g, w, pr := c12OfOne(pos, n.has, n.n, nil)
+			probes += pr
+			if g != w {
+				c.Fail(1<<36|int64(m)<<8|int64(ni), "Of", "Of", c12Case{Pos: pos, HasN: n.has, N: n.n}, g, w)
+			}
+			evals++
+			if len(pos) > 0 {
+				nontriv++
+			}
+		}
+		c.Count(evals, nontriv)
+		c.Add("probe_calls", probes*4)
+	})
 	// (ofmany)
 	segs := c12Segments()
 	ns := len(segs)
@@ -469,13 +557,16 @@ func c12Run(c *mc.Ctx) {
 			return
 		}
 		var evals, nontriv, skip int64
+		subsBuf := make([][]int32, 0, 4)
+		sizesBuf := make([]int32, 0, 4)
 		run := func(ss []c12Seg) {
 			all, total, _ := c12Shift(ss)
 			if !c12InDomain(all, total) {
 				skip++
 				return
 			}
-			if g, w := c12OfManyOne(ss); g != w {
+			if !c12OfManyOK(ss, all, total, subsBuf[:0], sizesBuf[:0]) {
+				g, w := c12OfManyOne(ss)
 				c.Fail(1<<40|int64(k)<<20|evals, "OfMany", "OfMany", c12Case{Segs: append([]c12Seg(nil), ss...)}, g, w)
 			}
 			evals++
